@@ -479,7 +479,15 @@ def rule_validity_enumeration(ctx, rule='R17.4'):
             want_roles = {'dosage', 'dosage_p', 'dosage_q', 'constraint_p', 'constraint_q', 'gamete_p'}
             # a gamete pair is rejected iff the complementary gamete exceeds the other parent's constraint or the pair does not add up
             comp_roots = {R(ev.data[3]) for ev in comp}
-            rej = [positive(*path(ev)[-1]) for ev in r.events if ev.kind == 'assign' and ev.data[1] == ('const', False) and path(ev)]
+            rej0 = [positive(*path(ev)[-1]) for ev in r.events if ev.kind == 'assign' and ev.data[1] == ('const', False) and path(ev)]
+            # `if a: reject` followed by `if b: reject`, or `if a or b: reject`: the disjuncts are the tests
+            rej, todo = [], list(rej0)
+            while todo:
+                c_, pol_ = todo.pop(0)
+                if isinstance(c_, tuple) and c_ and c_[0] == 'bool' and c_[1] == 'Or' and pol_:
+                    todo[:0] = [positive(c_[2], True), positive(c_[3], True)]
+                else:
+                    rej.append((c_, pol_))
             kinds = set()
             for c, pol in rej:
                 c = collapse(c, {})
